@@ -30,6 +30,9 @@ Meshes == {
     [name |-> "octprism", vpos |-> PrismV(Oct, 0, 3), faces |-> PrismSides(8) \o PrismCaps(8), convex |-> TRUE],
     [name |-> "lprism", vpos |-> PrismV(Ell, 0, 2), faces |-> PrismSides(6) \o PrismCaps(6), convex |-> FALSE],
     [name |-> "twoboxes", vpos |-> BoxV \o ShiftV(BoxV, V3(3, 1, 0)), faces |-> BoxF \o ShiftF(BoxF, 8), convex |-> FALSE] }
+\* a flat box: a plane 1/8 from its top or bottom crosses the side diagonals 1/2 away from the corners, so a curve
+\* tolerance of 3/16 separates "distance of the plane to the nearest vertices" from "spacing of the crossing points"
+FlatBox == [name |-> "flatbox", vpos |-> [k \in 1..8 |-> V3(2 * BoxV[k][1], 2 * BoxV[k][2], BoxV[k][3] \div 2)], faces |-> BoxF, convex |-> TRUE]
 OpenMeshes == {
     [name |-> "quad", vpos |-> <<V3(0,0,0), V3(2,0,0), V3(2,2,0), V3(0,2,0)>>, faces |-> << <<0,1,2>>, <<0,2,3>> >>, convex |-> FALSE],
     [name |-> "tube", vpos |-> PrismV(Oct, 0, 3), faces |-> PrismSides(8), convex |-> FALSE] }
@@ -54,7 +57,10 @@ Mk(op, ms, n, dn, T) == [m |-> "section", op |-> op, wd |-> 4000, name |-> ms.na
 Cases ==
     UNION {{Mk(op, ms, Normals[j], dn, Motions[t]) : dn \in Offsets(ms.vpos, Normals[j]), op \in {"section", "split"}}
            : ms \in Meshes, j \in 1..NPlanes, t \in 1..NMotions} \cup
-    UNION {{Mk("section", ms, Normals[j], dn, Motions[1]) : dn \in Offsets(ms.vpos, Normals[j])} : ms \in OpenMeshes, j \in {1, 2, 4}}
+    UNION {{Mk("section", ms, Normals[j], dn, Motions[1]) : dn \in Offsets(ms.vpos, Normals[j])} : ms \in OpenMeshes, j \in {1, 2, 4}} \cup
+    \* an explicit curve tolerance larger than the plane's distance to the nearest vertices (1/8) must not move the section
+    {[Mk("section", FlatBox, Normals[1], dn, Motions[t]) EXCEPT !.name = "flatbox_tol"] @@ [stol16 |-> 3]
+        : dn \in {MinOf(Proj(FlatBox.vpos, Normals[1])) + 1, MaxOf(Proj(FlatBox.vpos, Normals[1])) - 1}, t \in 1..2}
 
 Init == case \in Cases
 Next == UNCHANGED case
